@@ -19,6 +19,8 @@ panics, and the plugin layer never produces such a limiter request).
 `fix: F09b` made the cap an integer computation (`capUnits`, ratio in units of 1e-8): `cap_is_exact_share` and
 `spec_holds_exact_cap` tie it to the exact rational share; `fix: F09d` made metrics scrapes read-only.
 
+`fix: F09f` drops collected spill-over when a request's configuration has the feature off; the second F09b
+patch makes `scaledCeil` overflow-free (`scaledCeil_is_ceil`, `scaledCeil_no_overflow`).
 `fix: F09e` removed `strings.TrimSpace` from `buildGroupID`: the counter key is the allocation table's group
 (`counters_follow_allocation_groups`, `plugin_spec_holds_groups`).  No finding of C09 is open.
 -/
@@ -207,10 +209,31 @@ end
 /-! ### The cap the code computes is the exact share (fix F09b) -/
 
 /-- `scaledCeil` (integers, ratio in units of 1e-8) is exactly "(allowed + spill-over) × percentage, rounded up"
-    for every percentage with at most six decimals (and for the ungrouped ratio 1). -/
+    for every percentage with at most six decimals (and for the ungrouped ratio 1) — for every count, in
+    particular every int64 one (`scaledCeil_no_overflow`: the int64 computation is the integer one). -/
 theorem cap_is_exact_share (total : Int) (r : Ratio) (h6 : sixDecimals r = true) :
     capUnits total r = capExact total r :=
   capUnits_eq_capExact total r h6
+
+/-- The Go formula of `scaledCeil` (count split into whole multiples of 1e8 and a rest, truncating division,
+    plus one for a positive product with a remainder) is ⌈count · units / 1e8⌉ — for every integer count. -/
+theorem scaledCeil_is_ceil (count units : Int) :
+    capGo count units = -((-(count * units)) / 100000000) :=
+  capGo_eq_ceil count units
+
+/-- `scaledCeil` cannot overflow: for EVERY int64 count and every ratio in [0, 1] (units ≤ 1e8) each
+    intermediate value of the Go formula — quotient, remainder, both products, the truncated quotient and
+    remainder of the product, the sum and (when it is taken) the increment — lies in the int64 range.  So the
+    unbounded-integer model `capGo` IS the int64 computation. -/
+theorem scaledCeil_no_overflow (count units : Int) (hc : fits64 count) (hu0 : 0 ≤ units)
+    (hu1 : units ≤ 100000000) :
+    fits64 (tdivR count) ∧ fits64 (tmodR count) ∧ fits64 (tmodR count * units) ∧
+    fits64 (tdivR count * units) ∧ fits64 (tdivR (tmodR count * units)) ∧
+    fits64 (tmodR (tmodR count * units)) ∧
+    fits64 (tdivR count * units + tdivR (tmodR count * units)) ∧
+    (0 < tmodR count * units ∧ tmodR (tmodR count * units) ≠ 0 →
+      fits64 (tdivR count * units + tdivR (tmodR count * units) + 1)) :=
+  capGo_fits count units hc hu0 hu1
 
 /-- Connection theorem WITHOUT an opaque cap: every run of the model with the code's cap (`capUnits`) satisfies
     the Spec evaluated with the EXACT rational cap, for percentages with at most six decimals. -/
@@ -397,6 +420,24 @@ example :
     capUnits 100 (.pct 7 1) = 7 ∧ clean (runL capUnits [] rs) = true ∧
     (runL capUnits [] rs).map (·.pass) = [true, true, true, true, true, true, true, false, false] ∧
     holds capExact (runL capUnits [] rs) = true := by
+  decide
+
+/-- the former F09f witness (allowed 2 per 1 s; spill-over collected while enabled, then the remedy is
+    reconfigured with spill-over OFF): the later windows admit exactly 2 again. -/
+example :
+    let on : WindowData := ⟨1000000000, 2, .one, true, 31⟩
+    let off : WindowData := ⟨1000000000, 2, .one, false, 31⟩
+    let rs : List (Req Unit) := [⟨(), 1000500000000, on⟩, ⟨(), 1001500000000, on⟩,
+      ⟨(), 1002500000000, off⟩, ⟨(), 1002500000001, off⟩, ⟨(), 1002500000002, off⟩,
+      ⟨(), 1005500000000, off⟩, ⟨(), 1005500000001, off⟩, ⟨(), 1005500000002, off⟩]
+    clean (runL capExact [] rs) = true ∧
+    (runL capExact [] rs).map (·.pass) = [true, true, true, true, false, true, true, false] := by
+  decide
+
+/-- huge allowances (the former overflow of `scaledCeil`): 1e11 per window at ratio 1, and 50 % of 2^63 − 1. -/
+example : capUnits 100000000000 .one = 100000000000 ∧
+    capUnits 9223372036854775807 (.pct 50 1) = 4611686018427387904 ∧
+    capExact 9223372036854775807 (.pct 50 1) = 4611686018427387904 := by
   decide
 
 /-- the former F09d witness (allowed 2 per 1 s, spill-over on; window 1000 used up; scrapes in the idle windows
